@@ -47,11 +47,12 @@ func (v *StructSchema) Merge(other *StructSchema, others ...*StructSchema) *Stru
 }
 
 // cloneShallow creates a shallow copy of the schema.
-// The new schema shares references to the transforms, tests and inner schema.
+// The new schema shares references to the inner schema but owns its transforms and tests slices,
+// so that adding a test or transform to one schema never shows up in (or overwrites) another's.
 func (v *StructSchema) cloneShallow() *StructSchema {
 	new := &StructSchema{
-		postTransforms: v.postTransforms,
-		tests:          v.tests,
+		postTransforms: append([]p.PostTransform(nil), v.postTransforms...),
+		tests:          append([]p.Test(nil), v.tests...),
 		required:       v.required,
 		schema:         v.schema,
 	}
